@@ -6,7 +6,7 @@ from sim import simset
 from sim.kernel import EventLog, Violation, digest_of
 
 ANCHORS = list("\\]^[-/$.(){}?+*|") + list("abcyzABYZ0189_") + list("!#%&,:;<=>@~\"' \n\t") + \
-    ["é", "ß", "Ж", "Ω", "ώ", "Ά", "中", "가", "😀", "\x00", "\x7f", "\U0010ffff", "\ud800", "ӿ", "֐"]
+    ["é", "ß", "Ж", "Ω", "ώ", "Ά", "中", "가", "😀", "\x00", "\x7f", "\U0010ffff", "\ud800", "\udfff", "\uffff", "ӿ", "֐"]
 NAMED = ["Any" + b for b in cm.NAMED] + ["AnyBut" + b for b in cm.NAMED]
 TOKS = sorted(cm.TOKENS)
 
@@ -242,3 +242,62 @@ def shrink_candidates(plan):
                 q = copy.deepcopy(plan)
                 q["lets"][i] = v
                 yield q
+
+
+SPECIALS = list("\\]^[-/$.(){}?+*|") + ["\n", "\t", " ", "\x00", "\U0010ffff", "\ud800", "\udfff", "0", "9", "a", "z", "A", "Z", "_"]
+
+
+def _nb(c, d):
+    o = ord(c) + d
+    return chr(o) if 0 <= o <= 0x10FFFF else None
+
+
+def systematic_constructors():
+    """A small, fully enumerated family run on every invocation (the first run indices): every special character as a lone
+    member, as either end of two- and three-character ranges, and next to its neighbours - the char/range boundary cases."""
+    out = []
+    for s_ in SPECIALS:
+        p1, p2, m1, m2 = _nb(s_, 1), _nb(s_, 2), _nb(s_, -1), _nb(s_, -2)
+        for pre in ("Any", "AnyBut"):
+            out.append([pre + "From", s_])
+            for hi in (p1, p2):
+                if hi:
+                    out.append([pre + "Between", s_, hi])
+            for lo in (m1, m2):
+                if lo:
+                    out.append([pre + "Between", lo, s_])
+            if p1:
+                out.append([pre + "From", s_, p1])
+                out.append([pre + "From", p1, s_, s_])
+            if p1 and m1:
+                out.append([pre + "From", m1, s_, p1])
+            if p2:
+                out.append([pre + "From", s_, p2])
+    for t in TOKS:
+        c = cm.TOKENS[t]
+        out.append(["tok", t])
+        out.append(["AnyFrom", ["tok", t]])
+        out.append(["AnyButFrom", ["tok", t], "a"])
+        if _nb(c, 1):
+            out.append(["AnyBetween", ["tok", t], _nb(c, 1)])
+        if _nb(c, -2):
+            out.append(["AnyButBetween", _nb(c, -2), ["tok", t]])
+    return out
+
+
+def systematic_algebra():
+    """Enumerated boundary cases of the algebra: a special character against ranges that start / end / sit next to it."""
+    out = []
+    for s_ in SPECIALS:
+        p1, p2, m1, m2 = _nb(s_, 1), _nb(s_, 2), _nb(s_, -1), _nb(s_, -2)
+        if not (p1 and p2 and m1 and m2):
+            continue
+        rng3 = ["AnyBetween", m1, p1]
+        rng5 = ["AnyBetween", m2, p2]
+        out += [["sub", rng3, ["chr", s_]], ["sub", rng5, ["chr", s_]], ["sub", rng5, rng3], ["sub", rng3, rng5],
+                ["or", ["AnyFrom", m1], ["AnyFrom", s_]], ["or", ["AnyFrom", p1, m1], ["chr", s_]], ["or", ["chr", s_], rng3],
+                ["sub", ["AnyFrom", m1, s_, p1], ["AnyBetween", s_, p2]], ["inv", ["AnyFrom", s_, p1]], ["inv", ["inv", ["AnyFrom", s_]]],
+                ["sub", ["AnyBetween", s_, p1], ["chr", p1]], ["sub", ["AnyBetween", s_, p2], ["AnyFrom", s_, p2]],
+                ["or", ["AnyButFrom", s_], ["AnyButBetween", m2, m1]], ["sub", ["AnyButBetween", m2, p2], ["AnyButFrom", s_]],
+                ["sub", ["chr", s_], ["AnyFrom", s_, p1]], ["sub", ["AnyFrom", s_], ["chr", s_]]]
+    return out
